@@ -244,8 +244,11 @@ class Context(object):
             try:
                 with open(filename, 'rb') as fh:
                     d = pickle.load(fh)
-                    if rtype not in list(d.keys()):
-                        d[rtype] = {}
+                    if not isinstance(d, dict):
+                        raise TypeError('not a paux dictionary')
+                    # Keep the blocks of the other renderers; ours is
+                    # rewritten from the labels of this run
+                    d[rtype] = {}
             except:
                 os.remove(filename)
                 d = {rtype:{}}
